@@ -1,6 +1,8 @@
 """C08 -- contact-point estimators return a usable, scale-independent index."""
 import warnings
 
+import sys
+
 import numpy as np
 
 from .. import common, gen_all, fits
@@ -348,7 +350,7 @@ def check(run):
 def replay(rec):
     pl = rec.get("payload") or {}
     if pl.get("kind") != "input":
-        return True
+        return common.replay_by_rerun(sys.modules[__name__], rec)
     name, m = pl["name"], pl["method"]
 
     class R:
@@ -373,4 +375,4 @@ def replay(rec):
             if nm == name:
                 oracle(R(), nm, f, truth, [m])
                 return not R.bad
-    return True
+    return common.replay_by_rerun(sys.modules[__name__], rec)
